@@ -279,11 +279,12 @@ func (n *InfluxQLNode) getCreateFn(kind reflect.Kind) (createReduceContextFunc, 
 	if !changed && n.createFn != nil {
 		return n.createFn, nil
 	}
-	n.currentKind = kind
 	createFn, err := determineReduceContextCreateFn(n.n.Method, kind, n.n.ReduceCreater)
 	if err != nil {
+		// Leave the cache as it is, the cached function belongs to the cached kind.
 		return nil, errors.Wrapf(err, "invalid influxql func %s with field %s", n.n.Method, n.n.Field)
 	}
+	n.currentKind = kind
 	n.createFn = createFn
 	return n.createFn, nil
 }
